@@ -25,11 +25,11 @@ package ipnisync
 //@   ensures result != nil ==> s.noPath == old(s.noPath)
 //@   ensures nonnilelems(s.urls)
 //@   ensures s.noPath != old(s.noPath) ==> s.noPath && s.plainHTTP
-//@   at call cb#1: assert resp.StatusCode == 200 && arg0 == resp.Body
+//@   at call cb: assert resp.StatusCode == 200 && arg0 == resp.Body
 // the client moves on to the publisher's next address only when a request could not be made at all
 // (transport failure) - never because of an HTTP status, which may be temporary (C04):
 //@   ghost doErr := false
-//@   at call Do#1: after ghost doErr := result1 != nil
+//@   at call Do: after ghost doErr := result1 != nil
 //@   loop 1: iteration ghost u0 := len(s.urls)
 //@   loop 1: iteration ensures len(s.urls) == u0 || (len(s.urls) == u0 - 1 && doErr)
 //@   ensures-local count("call:cb") <= 1
@@ -46,9 +46,9 @@ package ipnisync
 //@   assumes str(cid.Undef.str) == str("")
 //@   ghost signer := 0
 //@   ghost validated := false
-//@   at call Validate#1: after ghost signer := str(result0)
-//@   at call Validate#1: after ghost validated := result1 == nil
-//@   at call Validate#1: assert arg0.Head == signedHead.Head && arg0.Topic == signedHead.Topic && arg0.Sig == signedHead.Sig && arg0.Pubkey == signedHead.Pubkey
+//@   at call Validate: after ghost signer := str(result0)
+//@   at call Validate: after ghost validated := result1 == nil
+//@   at call Validate: assert arg0.Head == signedHead.Head && arg0.Topic == signedHead.Topic && arg0.Sig == signedHead.Sig && arg0.Pubkey == signedHead.Pubkey
 // the signature is always validated; the signer is compared whenever the syncer was made for an identity
 // (a syncer without one - possible through the ipnisync API, never created by the subscriber - can only
 // skip the comparison, not the validation):
@@ -68,14 +68,14 @@ package ipnisync
 //@   property C02
 //@   requires s != nil && s.sync != nil && data != nil && ctx != nil
 //@   ghost eq := false
-//@   at call TeeReader#1: assert arg0 == data && arg1 == writer
+//@   at call TeeReader: assert arg0 == data && arg1 == writer
 //@   ghost teeR := zero("io.Reader")
-//@   at call TeeReader#1: after ghost teeR := result
-//@   at call SumStream#1: assert arg0 == teeR && count("call:TeeReader") == 1 && arg1 == mhTypeOf(str(c.str)) && arg2 == mhLenOf(str(c.str))
-//@   at call Equal#1: assert content(arg0) == cidHashOf(str(c.str)) && arg1 == sum
-//@   at call Equal#1: after ghost eq := result
-//@   at call committer#1: assert eq && str(as(arg0, "cidlink.Link").Cid.str) == str(c.str)
-//@   at call StorageWriteOpener#1: after assume result2 == nil ==> result0 != nil && result1 != nil
+//@   at call TeeReader: after ghost teeR := result
+//@   at call SumStream: assert arg0 == teeR && count("call:TeeReader") == 1 && arg1 == mhTypeOf(str(c.str)) && arg2 == mhLenOf(str(c.str))
+//@   at call Equal: assert content(arg0) == cidHashOf(str(c.str)) && arg1 == sum
+//@   at call Equal: after ghost eq := result
+//@   at call committer: assert eq && str(as(arg0, "cidlink.Link").Cid.str) == str(c.str)
+//@   at call StorageWriteOpener: after assume result2 == nil ==> result0 != nil && result1 != nil
 //@   ensures-local count("call:committer") <= 1 && count("call:StorageWriteOpener") <= 1
 //@   ensures-local result == nil ==> count("call:committer") == 1 && eq
 //@   ensures-local !eq ==> count("call:committer") == 0
@@ -87,7 +87,7 @@ package ipnisync
 //@   modifies s.rootURL, s.urls, s.noPath
 //@   ensures nonnilelems(s.urls)
 //@   ghost present := false
-//@   at call Load#1: after ghost present := result0 != nil && result1 == nil
+//@   at call Load: after ghost present := result0 != nil && result1 == nil
 //@   ensures-local present ==> result == nil && count("call:fetch") == 0
 //@   ensures-local !present ==> count("call:fetch") == 1
 
@@ -117,8 +117,8 @@ package ipnisync
 //@   requires s != nil && s.sync != nil && s.client != nil && ctx != nil && nonnilelems(s.urls)
 //@   assumes typeis(l, "cidlink.Link")
 //@   ghost fetchFailed := false
-//@   at call fetchBlock#1: assert str(arg2.str) == payload(l)
-//@   at call fetchBlock#1: after ghost fetchFailed := result != nil
+//@   at call fetchBlock: assert str(arg2.str) == payload(l)
+//@   at call fetchBlock: after ghost fetchFailed := result != nil
 //@   ensures-local count("call:fetchBlock") == 1
 //@   ensures-local fetchFailed ==> result1 != nil && count("call:StorageReadOpener") == 0 && len(traversalOrder) == old(len(traversalOrder))
 //@   ensures-local result1 != nil ==> len(traversalOrder) == old(len(traversalOrder))
@@ -132,8 +132,8 @@ package ipnisync
 //@   property C02 C01
 //@   requires s != nil && s.sync != nil && s.client != nil && ctx != nil && nonnilelems(s.urls)
 //@   modifies s.rootURL, s.urls, s.noPath
-//@   at call Load#1: after havoc traversalOrder
-//@   at call WalkMatching#1: after havoc traversalOrder
+//@   at call Load: after havoc traversalOrder
+//@   at call WalkMatching: after havoc traversalOrder
 //@   ensures result1 != nil ==> len(result0) == 0
 //@   ensures-local result1 == nil ==> result0 == traversalOrder
 
@@ -143,9 +143,9 @@ package ipnisync
 //@   property C02 C01
 //@   requires s != nil && s.sync != nil && s.client != nil && ctx != nil && nonnilelems(s.urls)
 //@   ghost walked := false
-//@   at call walkFetch#1: assert arg2 == nextCid
-//@   at call walkFetch#1: after ghost walked := result1 == nil
-//@   at call blockHook#1: assert walked && arg0 == s.peerInfo.ID && arg1 == cids[rangeindex]
+//@   at call walkFetch: assert arg2 == nextCid
+//@   at call walkFetch: after ghost walked := result1 == nil
+//@   at call blockHook: assert walked && arg0 == s.peerInfo.ID && arg1 == cids[rangeindex]
 //@   loop 1: exhaustive
 //@   loop 1: iteration ensures itercount("call:blockHook") == 1
 //@   ensures-local !walked ==> result != nil && count("call:blockHook") == 0
@@ -171,9 +171,9 @@ package ipnisync
 //@   requires p != nil && w != nil && r != nil && r.URL != nil && !held(p.lock) && p.privKey != nil
 //@   assumes str(cid.Undef.str) == str("")
 //@   ghost signed := zero("[]byte")
-//@   at call newEncodedSignedHead#1: assert arg0 == rootCid && str(arg0.str) != str("") && str(arg1) == str(p.topic) && arg2 == p.privKey
-//@   at call newEncodedSignedHead#1: after ghost signed := result0
-//@   at call Write#1: assert arg1 == signed
+//@   at call newEncodedSignedHead: assert arg0 == rootCid && str(arg0.str) != str("") && str(arg1) == str(p.topic) && arg2 == p.privKey
+//@   at call newEncodedSignedHead: after ghost signed := result0
+//@   at call Write: assert arg1 == signed
 //@   ensures-local count("call:newEncodedSignedHead") <= 1 && count("call:ResponseWriter.Write") <= count("call:newEncodedSignedHead")
 //@   ensures-local !held(p.lock)
 
@@ -181,7 +181,7 @@ package ipnisync
 //@ func newEncodedSignedHead
 //@   property C03
 //@   requires privKey != nil
-//@   at call NewSignedHead#1: assert arg0 == rootCid && str(arg1) == str(topic) && arg2 == privKey
+//@   at call NewSignedHead: assert arg0 == rootCid && str(arg1) == str(topic) && arg2 == privKey
 //@   ensures-local result1 == nil ==> count("call:NewSignedHead") == 1 && count("call:Encode") == 1 && before("call:NewSignedHead", "call:Encode")
 
 // ---------------------------------------------------------------------------
